@@ -440,6 +440,24 @@ def step_finishes(h, t, now, d):
     return z3.And(active, _us(get(rem)) - (_us(now) + _us(d) - _us(get(last))) <= 0)
 
 
+def step_rel(h0, h1, t, now, d):
+    """the effect of one Task.step(now, d) on the remaining time / last step time of task t between the states h0 and h1
+    (the clauses step.finished_effects / progress_effects / idle_unchanged of Task.step's contract); a task that is not
+    RUNNING is skipped by Worker.step, which is the idle clause"""
+    rem0o, last0o = h0.rd(t, TASK, "_remaining_time")[1], h0.rd(t, TASK, "_last_step_time")[1]
+    rem1o, last1o = h1.rd(t, TASK, "_remaining_time")[1], h1.rd(t, TASK, "_last_step_time")[1]
+    rem0, last0 = get(rem0o), get(last0o)
+    running = z3.And(h0.rd(t, TASK, "_state")[1] == T_RUNNING, _us(h0.rd(t, TASK, "_start_time")[1]) <= _us(now) + _us(d))
+    active = z3.And(running, _us(rem0) != 0)
+    exec_t = _us(now) + _us(d) - _us(last0)
+    fin = z3.And(active, _us(rem0) - exec_t <= 0)
+    return z3.And(
+        z3.Implies(fin, z3.And(some(rem1o), _us(get(rem1o)) == 0, some(last1o), _us(get(last1o)) == _us(now) + _us(rem0))),
+        z3.Implies(z3.And(active, z3.Not(fin)), z3.And(some(rem1o), _us(get(rem1o)) == _us(rem0) - exec_t, some(last1o), _us(get(last1o)) == _us(now) + _us(d))),
+        z3.Implies(z3.Not(active), z3.And(rem1o == rem0o, last1o == last0o)),
+    )
+
+
 def _wstep_mod(c):
     w = c.arg("self")
     out = {
@@ -470,6 +488,8 @@ def _wstep_tasks_inv(c, L):
     return {
         "collected_exactly_finished": z3.ForAll([t], h.l_mem(TaskList, res, t) == z3.And(visited, fin0), patterns=[h.l_mem(TaskList, res, t)]),
         "unvisited_untouched": z3.ForAll([t], z3.Implies(z3.And(z3.Not(visited), 0 < t, t < c.alloc0), z3.And(rem(h) == rem(c.pre), last(h) == last(c.pre))), patterns=[rem(h)]),
+        # every visited task has been stepped exactly once (Task.step's effect relative to the entry state) and stays well formed
+        "visited_stepped_once": z3.ForAll([t], z3.Implies(visited, z3.And(step_rel(c.pre, h, t, now, d), wf_task(h, t))), patterns=[rem(h)]),
         "list_fresh": res >= c.alloc0,
     }
 
@@ -486,6 +506,19 @@ def _wstep_ens(c):
             [t], c.post.l_mem(TaskList, c.res, t) == z3.And(c.pre.d_dom(PT, pt, t), step_finishes(c.pre, t, now, d)), patterns=[c.post.l_mem(TaskList, c.res, t)]
         ),
         "step.list_fresh": c.res >= c.alloc0,
+        # C03: every placed task is stepped exactly once by the given amount (Task.step's effect), stays well formed, and
+        # no other task is touched
+        "step.placed_tasks_stepped_once": z3.ForAll(
+            [t], z3.Implies(c.pre.d_dom(PT, pt, t), z3.And(step_rel(c.pre, c.post, t, now, d), wf_task(c.post, t))), patterns=[c.post.rd(t, TASK, "_remaining_time")[1]]
+        ),
+        "step.other_tasks_untouched": z3.ForAll(
+            [t],
+            z3.Implies(
+                z3.And(z3.Not(c.pre.d_dom(PT, pt, t)), 0 < t, t < c.alloc0),
+                z3.And(c.post.rd(t, TASK, "_remaining_time")[1] == c.pre.rd(t, TASK, "_remaining_time")[1], c.post.rd(t, TASK, "_last_step_time")[1] == c.pre.rd(t, TASK, "_last_step_time")[1]),
+            ),
+            patterns=[c.post.rd(t, TASK, "_remaining_time")[1]],
+        ),
     }
 
 
